@@ -417,7 +417,7 @@ func TestC10(t *testing.T) {
 		}
 		x := &sched.Explorer{Bound: b, Report: rep, Deadline: deadline, Scenario: sc.name,
 			Run: func(c *sched.Chooser) sched.Result { return runOne(t, sc, c) }}
-		if !x.Explore() {
+		if !x.ExploreOrReplay() {
 			complete = false
 			rep.NotExhaustive("deadline or violation cap in scenario " + sc.name)
 			break
